@@ -56,7 +56,12 @@ def run(ctx):
             ctx.exhaustive_parts.append(f"{kind}: all {len(tuples)} shape tuples over 8 shapes of rank 0..3")
         for t in tuples:
             shs = [SHAPES[i] for i in t]
-            rec = {"type": kind, "kwargs": [[f, gen.arr(rng, s, "<f8")] for f, s in zip(fields, shs)]}
+            def val(s):
+                # a rank-0 parameter is given as a 0-d ndarray or as a numpy scalar (np.float64(...): shape () as well)
+                if s == [] and rng.random() < 0.5:
+                    return {"n": "<f8", "x": np.float64(rng.choice([0.5, 2.0, 10.0])).tobytes().hex()}
+                return gen.arr(rng, s, "<f8")
+            rec = {"type": kind, "kwargs": [[f, val(s)] for f, s in zip(fields, shs)]}
             ok = all(s == shs[0] for s in shs)
             one(rec, ok, kind, {"site": kind})
     # CubaLIF: five shapes + w_in forms
@@ -71,7 +76,7 @@ def run(ctx):
             ok = False
         kw = [[f, gen.arr(rng, s, "<f8")] for f, s in zip(gen.CUBA, shs)]
         vt = shs[4]
-        form = rng.choice(["absent", "pyfloat", "same", "scalar0d", "suffix", "ones", "bad", "larger", "npscalar"])
+        form = rng.choice(["absent", "pyfloat", "same", "scalar0d", "suffix", "ones", "bad", "larger", "npscalar", "leading_ones"])
         wshape = None
         if form == "pyfloat":
             kw.append(["w_in", gen.pyfloat(rng.choice([0.5, 2.0, -1.0]))])
@@ -89,6 +94,8 @@ def run(ctx):
             wshape = list(vt[:-1]) + [vt[-1] + 1] if vt else [2]
         elif form == "larger":
             wshape = [2] + list(vt)
+        elif form == "leading_ones":
+            wshape = [1] * rng.randrange(1, 3) + list(vt)      # more axes than the parameters: not broadcastable *to* them
         if wshape is not None:
             kw.append(["w_in", gen.arr(rng, wshape, "<f8")])
             if not broadcastable_to(wshape, vt):
